@@ -136,7 +136,7 @@ theorem orderInv_step (hl : cfg.sendLocked = true) (s s' : St) (a : Act) (hm : M
     obtain ⟨⟨ht0, hq, hp, hsid, hlk⟩, rfl⟩ := step_lockSend h
     subst hsid
     have hqe : s.queue = [] := hm.noq hq
-    have hfl : flatLogs ({ s with lock := some t, nsid := s.nsid + 1, handed := s.handed ++ [s.nsid] }.setPc t
+    have hfl : flatLogs ({ s with lock := some t, nsid := s.nsid + 1, handed := s.handed ++ [s.nsid], xclosed := false }.setPc t
         (.made s.nsid)) = flatLogs s := rfl
     have hnomade : ∀ t' sid', s.pc t' = .made sid' → False := by
       intro t' sid' h'
@@ -317,7 +317,7 @@ theorem orderInv_step (hl : cfg.sendLocked = true) (s s' : St) (a : Act) (hm : M
     · exact hi.logHanded
   | dequeue =>
     obtain ⟨sid, q, hp, hq, _, _, rfl⟩ := step_dequeue h
-    have hfl : flatLogs ({ s with queue := q, lock := if cfg.procLocked = true then some 0 else s.lock }.setPc 0 (.made sid)) = flatLogs s := rfl
+    have hfl : flatLogs ({ s with queue := q, lock := if cfg.procLocked = true then some 0 else s.lock, xclosed := false }.setPc 0 (.made sid)) = flatLogs s := rfl
     have hsorted := hi.queueSorted
     rw [hq, List.pairwise_cons] at hsorted
     have hcs0 : ∀ t' sid', t' ≠ 0 → s.pc t' = .made sid' → False := by
@@ -392,6 +392,12 @@ theorem orderInv_step (hl : cfg.sendLocked = true) (s s' : St) (a : Act) (hm : M
     · rw [if_neg e] at h'; exact h'
   | reconfDialFail t =>
     obtain ⟨hp, rfl⟩ := step_reconfDialFail h
+    exact hi.move t _ (fun t' => pc_setPc _ _ _ _) rfl rfl rfl rfl rfl rfl (Or.inl rfl) (fun _ => by simp)
+  | extClose t =>
+    obtain ⟨_, rfl⟩ := step_extClose h
+    exact hi.same rfl rfl rfl rfl rfl rfl rfl (Or.inr rfl)
+  | swallow t =>
+    obtain ⟨sid, w, hp, _, _, _, _, rfl⟩ := step_swallow h
     exact hi.move t _ (fun t' => pc_setPc _ _ _ _) rfl rfl rfl rfl rfl rfl (Or.inl rfl) (fun _ => by simp)
 
 end Tcp
